@@ -38,7 +38,7 @@ pub fn main() {
     let mut out = vec![];
     for g in groups {
         let r = match g {
-            "e2e" | "e2e_filter" | "e2e_fn" => checks::group_e2e_named(g, tier, seed, only),
+            "e2e" | "e2e_filter" | "e2e_fn" | "e2e_cmp" => checks::group_e2e_named(g, tier, seed, only),
             "requery" => checks::group_requery(tier, seed, only),
             "text_arith" | "text_filter" => checks::group_text(g, tier, seed, only),
             "descendant" => checks::group_descendant(tier, seed, only),
